@@ -370,4 +370,69 @@ theorem cancel_file_spec (f : File) (hwf : WF f) (keep : List Lease)
   obtain ⟨r1, r2, r3⟩ := rewrite_spec (leaseOffset f) keep f 0 (by omega)
   exact cancel_file_aux f _ hwf keep hsub hle r1 r2 r3 g hg
 
+/-! ### `write_share_data` and the container of an open upload -/
+
+/-- an accepted data write (bound `m` with `12 + m ≤ lease offset`) stays inside the share-data area -/
+theorem writeShareData_spec (f : File) (hwf : WF f) (m : Nat) (hm : 12 + m ≤ leaseOffset f) (off : Nat) (d : Bytes)
+    (g : File) (h : writeShareData f (some m) off d = .ok g) :
+    g.length = f.length ∧ numLeases g = numLeases f ∧ leaseOffset g = leaseOffset f ∧ schemaOf g = schemaOf f ∧
+    WF g ∧ (∀ o k, leaseOffset f ≤ o → pread g o k = pread f o k) ∧ (∀ j, recAt g j = recAt f j) ∧
+    getLeases g = getLeases f := by
+  obtain ⟨hlo, hend⟩ := lo_facts hwf
+  simp only [writeShareData] at h
+  split at h
+  · simp at h
+  · rename_i hfit
+    simp only [Except.ok.injEq] at h
+    subst h
+    have hl : (pwrite f (12 + off) d).length = f.length := length_pwrite_of_le _ _ _ (by omega)
+    have fr : ∀ o k, (o + k ≤ 12 ∨ leaseOffset f ≤ o) → pread (pwrite f (12 + off) d) o k = pread f o k := by
+      intro o k hor; apply pread_pwrite_disj; omega
+    have hnum : numLeases (pwrite f (12 + off) d) = numLeases f := congrArg unpackBE (fr 8 4 (Or.inl (by omega)))
+    have hlo' : leaseOffset (pwrite f (12 + off) d) = leaseOffset f := by
+      show (pwrite f (12 + off) d).length - numLeases (pwrite f (12 + off) d) * 72 = leaseOffset f
+      rw [hl, hnum]; rfl
+    have hsch : schemaOf (pwrite f (12 + off) d) = schemaOf f := by
+      unfold schemaOf; rw [fr 0 4 (Or.inl (by omega))]
+    have hwfg : WF (pwrite f (12 + off) d) := ⟨by rw [hsch]; exact hwf.1, by rw [hnum, hl]; exact hwf.2⟩
+    have hrec : ∀ j, recAt (pwrite f (12 + off) d) j = recAt f j := by
+      intro j; unfold recAt; rw [hlo']; exact fr _ _ (Or.inr (by omega))
+    refine ⟨hl, hnum, hlo', hsch, hwfg, fun o k ho => fr o k (Or.inr ho), hrec, ?_⟩
+    rw [getLeases_eq hwfg, getLeases_eq hwf, hnum]
+    apply List.map_congr_left
+    intro j _; rw [hrec j]
+
+/-- the container `BucketWriter.__init__` creates: well formed, one lease, lease offset `12 + max_size` -/
+theorem createWithLease_spec (h : Bytes → Bytes) (size : Nat) (li : Lease) :
+    WF (createWithLease h size li) ∧ leaseOffset (createWithLease h size li) = 12 + size ∧
+    numLeases (createWithLease h size li) = 1 ∧ schemaOf (createWithLease h size li) = some .v2 := by
+  unfold createWithLease
+  simp only
+  generalize hrec : serImm (toStored h .v2 li) = rec
+  have hrl : rec.length = 72 := by rw [← hrec]; exact length_serImm _
+  generalize hf0 : packU32 2 ++ packU32 (min (2 ^ 32 - 1) size) ++ packU32 0 = f0
+  have hl0 : f0.length = 12 := by rw [← hf0]; simp
+  have h04 : pread f0 0 4 = packU32 2 := by
+    rw [← hf0, List.append_assoc]; exact pread_append_prefix _ _ _ (by simp)
+  have hl1 : (pwrite f0 (12 + size) rec).length = 12 + size + 72 := by
+    rw [length_pwrite, hrl, hl0]; simp
+  have hl2 : (pwrite (pwrite f0 (12 + size) rec) 8 (packU32 1)).length = 12 + size + 72 := by
+    rw [length_pwrite_of_le _ _ _ (by rw [length_packU32, hl1]; omega), hl1]
+  have hnum : numLeases (pwrite (pwrite f0 (12 + size) rec) 8 (packU32 1)) = 1 := by
+    unfold numLeases
+    have := pread_pwrite_eq (pwrite f0 (12 + size) rec) 8 (packU32 1)
+    rw [length_packU32] at this
+    rw [this]; exact unpackBE_packU32 1 (by omega)
+  have hsch : schemaOf (pwrite (pwrite f0 (12 + size) rec) 8 (packU32 1)) = some .v2 := by
+    unfold schemaOf
+    rw [pread_pwrite_disj _ _ _ _ _ (Or.inl ⟨by omega, by rw [hl1]; omega⟩),
+      pread_pwrite_disj _ _ _ _ _ (Or.inl ⟨by omega, by rw [hl0]; omega⟩), h04]
+    have : unpackBE (packU32 2) = 2 := unpackBE_packU32 2 (by omega)
+    simp [this]
+  have hlo : leaseOffset (pwrite (pwrite f0 (12 + size) rec) 8 (packU32 1)) = 12 + size := by
+    show (pwrite (pwrite f0 (12 + size) rec) 8 (packU32 1)).length
+      - numLeases (pwrite (pwrite f0 (12 + size) rec) 8 (packU32 1)) * 72 = 12 + size
+    rw [hl2, hnum]; omega
+  exact ⟨⟨by rw [hsch]; rfl, by rw [hnum, hl2]; omega⟩, hlo, hnum, hsch⟩
+
 end Tahoe.Storage.ImmL
